@@ -182,6 +182,7 @@ class RustSrc:
         self.enum_discr = {}  # name -> {variant: explicit discriminant}
         self.structs = {}    # name -> [field names] (tuple structs: '0','1',..)
         self.struct_types = {}  # name -> [field type text]
+        self.structs_all = {}   # name -> [field-name lists] (several structs may share a name in different modules)
         self.files = {}
         self.raw = {}
         for dp, dn, fn in os.walk(os.path.join(root, 'src')):
@@ -261,6 +262,7 @@ class RustSrc:
                         fields.append(str(idx))
                         types.append(ft)
                         idx += 1
+                self.structs_all.setdefault(name, []).append(fields)
                 if name not in self.structs:
                     self.structs[name] = fields
                     self.struct_types[name] = types
